@@ -9,6 +9,7 @@
 (*   out  the texts printed by message(), in order, as code points         *)
 (*   em   which of the program's error_message literals occur in the text  *)
 (*        of the failure                                                   *)
+(*   fi   index of the top-level statement in which it failed (0: none)    *)
 (* The reference outcome is LangObj!Run of the same program.  After a      *)
 (* point the reference calls unspecified (documentation and pinned tests   *)
 (* silent) only the output printed before that point is compared.          *)
@@ -22,13 +23,17 @@ Cases == Batch.cases
 VARIABLES i, done
 vars == <<i, done>>
 
-V(c, clause, r) == [id |-> c.id, clause |-> clause, sig |-> r.sig, code |-> r.code, expected |-> r.out, em |-> r.em]
+\* a verdict names the clause and carries what a report needs: the reference's output, the statement at which the
+\* reference stopped, and what the variables held there / before the statement at which the implementation failed (c.fi)
+Progr(c) == [j \in 1..Len(c.t) |-> Table[c.t[j] + 1]]
+V(c, clause, r) == [id |-> c.id, clause |-> clause, sig |-> r.sig, code |-> r.code, expected |-> r.out, em |-> r.em,
+                    at |-> r.at, rkinds |-> Kinds(r.vs),
+                    ikinds |-> IF clause # "ok" /\ c.fi > 0 THEN Kinds(Run(SubSeq(Progr(c), 1, c.fi - 1), c.af).vs) ELSE <<>>]
 IsPrefixOf(p, s) == Len(p) <= Len(s) /\ SubSeq(s, 1, Len(p)) = p
 InSeq(x, s) == \E j \in 1..Len(s) : s[j] = x
 
 Judge(c) ==
-    LET prog == [j \in 1..Len(c.t) |-> Table[c.t[j] + 1]]
-        r == Run(prog, c.af)
+    LET r == Run(Progr(c), c.af)
     IN IF r.sig = "err" /\ r.code = 3 THEN
             (IF IsPrefixOf(r.out, c.out) THEN V(c, "ok", r) ELSE V(c, "OutputBeforeUnspecifiedPointDiffers", r))
        ELSE IF r.sig = "err" THEN
